@@ -466,3 +466,84 @@ Definition names_unique_in (t : list orow) (l : list nat) : bool :=
 
 Definition siblings_unique_tbl (t : list orow) : bool :=
   forallb (fun row => forallb (fun av => names_unique_in t (vals (snd av))) (o_attrs row)) t.
+
+(* ------------------------------------------------------------ completeness certificate
+   A decidable closure condition on a set V of visited keys (obj, node, remaining length, first):
+   every key of V has all its successors handled - the next guard's key is again in V, or the
+   acceptance test fails.  The visited set left by a failed search is such a V (validated on every
+   generated case); Proofs: a closed V admits no justified result (under unique sibling names). *)
+Section Cert.
+  Variable F : nat.
+  Variable m : model.
+  Variable names0 : list (list N).
+  Variable V : list (nat * list nat * nat * bool).
+
+  Definition sufl (l : nat) : list (list N) := skipn (List.length names0 - l) names0.
+  Definition memk (k : nat * list nat * nat * bool) : bool := existsb (key_eqb k) V.
+  Definition keys_at (pos : list nat) : list (nat * list nat * nat * bool) :=
+    filter (fun k => pos_eqb (snd (fst (fst k))) pos) V.
+  Definition hnext (pos : list nat) : nat -> list (list N) -> bool :=
+    fun o ns => memk (o, pos, List.length ns, false).
+
+  Definition base_rule (pos : list nat) (e : elem) (H : nat -> list (list N) -> bool) : bool :=
+    forallb (fun k =>
+      let '(o, _, l, f) := k in
+      match e with
+      | EParent T => match apply_parent F m T o with
+                     | Some (Some p) => H p (sufl l) | Some None => true | None => false end
+      | ENav n cs fx => match apply_nav F m n cs fx f (mk o (sufl l) []) with
+                        | SOuts outs => forallb (fun c' => H (c_obj c') (c_names c')) outs
+                        | _ => false end
+      | EDots n => match apply_dots m n o with Some p => H p (sufl l) | None => true end
+      | _ => true
+      end) (keys_at pos).
+
+  Fixpoint firsts_in (q : list nat) (i : nat) (sq : seq) (o l : nat) (f : bool) : bool :=
+    match sq with
+    | S1 _ => memk (o, 0 :: i :: q, l, f)
+    | SCons _ sq' => memk (o, 0 :: i :: q, l, f) && firsts_in q (S i) sq' o l f
+    end.
+
+  Definition seq_rule (q : list nat) (sq : seq) : bool :=
+    forallb (fun k => let '(o, _, l, f) := k in firsts_in q 0 sq o l f) (keys_at q).
+
+  Definition br_rule (pos : list nat) : bool :=
+    forallb (fun k => let '(o, _, l, f) := k in memk (o, 0 :: pos, l, f)) (keys_at pos).
+
+  Definition star_rule (pos : list nat) (sl sr : bool) (H : nat -> list (list N) -> bool) : bool :=
+    forallb (fun k =>
+      let '(o, _, l, f) := k in
+      memk (o, 0 :: pos, l, f) &&
+      (if f then implb sl (H o (sufl l)) &&
+                 implb sr (match root_of F m o with Some rt => H rt (sufl l) | None => false end)
+       else H o (sufl l))) (keys_at pos).
+
+  Fixpoint ck_elem (pos : list nat) (e : elem) (H : nat -> list (list N) -> bool) {struct e} : bool :=
+    match e with
+    | EBr sq => br_rule pos && seq_rule (0 :: pos) sq && ck_alts (0 :: pos) 0 sq H
+    | EStar sq => star_rule pos (sl_seq sq) (sr_seq sq) H && seq_rule (0 :: pos) sq
+                  && ck_alts (0 :: pos) 0 sq (hnext pos)
+    | _ => base_rule pos e H
+    end
+  with ck_path (q : list nat) (i j : nat) (p : path) (H : nat -> list (list N) -> bool) {struct p} : bool :=
+    match p with
+    | P1 e => ck_elem (j :: i :: q) e H
+    | PCons e p' => ck_elem (j :: i :: q) e (hnext (S j :: i :: q)) && ck_path q i (S j) p' H
+    end
+  with ck_alts (q : list nat) (i : nat) (sq : seq) (H : nat -> list (list N) -> bool) {struct sq} : bool :=
+    match sq with
+    | S1 p => ck_path q i 0 p H
+    | SCons p sq' => ck_path q i 0 p H && ck_alts q (S i) sq' H
+    end.
+
+  Definition hfinal (T : option (list N)) : nat -> list (list N) -> bool :=
+    fun o ns => negb (match ns with [] => conf_opt m T o | _ :: _ => false end).
+
+  Definition closure_ok (sq : seq) (o : nat) (T : option (list N)) : bool :=
+    firsts_in [] 0 sq o (List.length names0) true && ck_alts [] 0 sq (hfinal T).
+End Cert.
+
+(* the certificate check applied to the visited set a search leaves behind *)
+Definition find_certified (F : nat) (m : model) (kf : bool) (sq : seq) (o : nat) (names : list (list N))
+           (T : option (list N)) : bool :=
+  closure_ok F m names (vis (snd (fowp F m kf sq o names T))) sq o T.
